@@ -228,7 +228,7 @@ func VerifLemma_C17C_OutIsolation() {
 			verifCover("archive out in a missing directory rejected")
 			return
 		}
-		if verifKnown("F7-archive-out-dir-created-but-error", archive && exp == nil && !genExists && create) {
+		if verifKnown("F17-archive-out-dir-created-but-error", archive && exp == nil && !genExists && create) {
 			return
 		}
 		verifAssert(err == nil, "AddResponse of a plain file succeeds (a missing directory of an archive out is created when requested)")
